@@ -240,8 +240,21 @@ pub proof fn lemma_ewm_value(val: real, e: real, a: real, q: real, n: int)
 pub proof fn lemma_half_even(k: int)
     requires k >= 0,
     ensures (k * (k + 1)) % 2 == 0, k >= 1 ==> k * (k + 1) / 2 >= 1,
+    decreases k
 {
-    assert((k * (k + 1)) % 2 == 0) by(nonlinear_arith) requires k >= 0;
+    // by induction: k(k+1) = (k-1)k + 2k, and adding a multiple of 2 does not change the remainder (no nonlinear search)
+    if k > 0 {
+        lemma_half_even(k - 1);
+        let b = (k - 1) * k;
+        assert(k * (k + 1) == 2 * k + b) by(nonlinear_arith) requires b == (k - 1) * k;
+        vstd::arithmetic::div_mod::lemma_mod_multiples_vanish(k, b, 2);
+        assert((2 * k + b) % 2 == b % 2);
+        assert(b == (k - 1) * ((k - 1) + 1));
+        assert(b % 2 == 0);
+        assert((k * (k + 1)) % 2 == 0);
+    } else {
+        assert(k * (k + 1) == 0) by(nonlinear_arith) requires k == 0;
+    }
     if k >= 1 { assert(k * (k + 1) >= 2) by(nonlinear_arith) requires k >= 1; }
 }
 
@@ -258,7 +271,7 @@ pub open spec fn sum_spec(w: Seq<Option<real>>, mp: int, o: U) -> bool {
     if cnt(w) >= mp { !isnull(o) && oval(o) == ps(w, 1) } else { isnull(o) }
 }
 
-//@fn name=ts_vsum_to crate=tea-rolling ctx="pub trait RollingValidFeature" props=C01,C05
+//@fn name=ts_vsum_to crate=tea-rolling ctx="pub trait RollingValidFeature" props=C01,C05,C06,C07,C08
 //@types T::Inner=${TI}
 //@sig fn ts_vsum_to<V: RollingDrivers<T>, O: Vec1<U>>(this: &V, window: usize, min_periods: Option<usize>, out: Option<&mut O::Buf>) -> (r: Option<O>)
 //@spec
@@ -268,8 +281,8 @@ pub open spec fn sum_spec(w: Seq<Option<real>>, mp: int, o: U) -> bool {
         out matches Some(o) ==> buf_fresh(o, this.view().len()),
         (window == 0 && out.is_none() && this.view().len() > 0) ==> panic_allowed(),
     ensures
-        window >= 1 ==> delivered_each(r, match out { Some(o) => Some(final(o).written()), None => None }, this.view().len(),       // #C05 one_output_per_input
-            |i: int, o: U| sum_spec(vals(wnd(this.view(), window, i)), mp_eff(min_periods, window, 0), o)),                              // #C01,C05 value_and_mask
+        window >= 1 ==> delivered_each(r, match out { Some(o) => Some(final(o).written()), None => None }, this.view().len(),       // #C05,C07 one_output_per_input
+            |i: int, o: U| sum_spec(vals(wnd(this.view(), window, i)), mp_eff(min_periods, window, 0), o)),                              // #C01,C05,C06,C08 value_and_mask
 //@closure 1 name=CloVsum trait="RollingFn<T, U>" params="v_rm: Option<T>, v: T" ret="(res: U)" push="Call { rm: v_rm, v: v, out: __r }" caps="mut n: usize, mut sum: ${TI}, min_periods: usize"
 //@closure 1 extra
     open spec fn hist(&self) -> Seq<Call<T, U>> { self.h@ }
@@ -312,7 +325,7 @@ pub open spec fn sum_spec(w: Seq<Option<real>>, mp: int, o: U) -> bool {
     }
 //@end
 
-//@fn name=ts_vmean_to crate=tea-rolling ctx="pub trait RollingValidFeature" props=C01,C05,C06,C08 arith=C05
+//@fn name=ts_vmean_to crate=tea-rolling ctx="pub trait RollingValidFeature" props=C01,C05,C06,C07,C08 arith=C05
 //@types T::Inner=${TI}
 //@sig fn ts_vmean_to<V: RollingDrivers<T>, O: Vec1<U>>(this: &V, window: usize, min_periods: Option<usize>, out: Option<&mut O::Buf>) -> (r: Option<O>)
 //@spec
@@ -322,8 +335,8 @@ pub open spec fn sum_spec(w: Seq<Option<real>>, mp: int, o: U) -> bool {
         (window == 0 && out.is_none() && this.view().len() > 0) ==> panic_allowed(),
         this.view().len() <= 0x7fff_ffff,      // A-LEN
     ensures
-        window >= 1 ==> delivered_each(r, match out { Some(o) => Some(final(o).written()), None => None }, this.view().len(),       // #C05 one_output_per_input
-            |i: int, o: U| mean_spec(vals(wnd(this.view(), window, i)), mp_eff(min_periods, window, 0), o)),                              // #C01,C05,C06 value_and_mask
+        window >= 1 ==> delivered_each(r, match out { Some(o) => Some(final(o).written()), None => None }, this.view().len(),       // #C05,C07 one_output_per_input
+            |i: int, o: U| mean_spec(vals(wnd(this.view(), window, i)), mp_eff(min_periods, window, 0), o)),                              // #C01,C05,C06,C08 value_and_mask
 //@closure 1 name=CloVmean trait="RollingFn<T, U>" params="v_rm: Option<T>, v: T" ret="(res: U)" push="Call { rm: v_rm, v: v, out: __r }" caps="mut n: usize, mut sum: f64, min_periods: usize"
 //@closure 1 extra
     open spec fn hist(&self) -> Seq<Call<T, U>> { self.h@ }
@@ -373,7 +386,7 @@ pub open spec fn sum_spec(w: Seq<Option<real>>, mp: int, o: U) -> bool {
     }
 //@end
 
-//@fn name=ts_vvar_to crate=tea-rolling ctx="pub trait RollingValidFeature" props=C01,C05,C06,C08 arith=C05
+//@fn name=ts_vvar_to crate=tea-rolling ctx="pub trait RollingValidFeature" props=C01,C05,C06,C07,C08 arith=C05
 //@types T::Inner=${TI}
 //@sig fn ts_vvar_to<V: RollingDrivers<T>, O: Vec1<U>>(this: &V, window: usize, min_periods: Option<usize>, out: Option<&mut O::Buf>) -> (r: Option<O>)
 //@spec
@@ -383,8 +396,8 @@ pub open spec fn sum_spec(w: Seq<Option<real>>, mp: int, o: U) -> bool {
         (window == 0 && out.is_none() && this.view().len() > 0) ==> panic_allowed(),
         this.view().len() <= 0x7fff_ffff,      // A-LEN
     ensures
-        window >= 1 ==> delivered_each(r, match out { Some(o) => Some(final(o).written()), None => None }, this.view().len(),       // #C05 one_output_per_input
-            |i: int, o: U| var_spec(vals(wnd(this.view(), window, i)), mp_eff(min_periods, window, 2), o)),                              // #C01,C05,C06 value_and_mask
+        window >= 1 ==> delivered_each(r, match out { Some(o) => Some(final(o).written()), None => None }, this.view().len(),       // #C05,C07 one_output_per_input
+            |i: int, o: U| var_spec(vals(wnd(this.view(), window, i)), mp_eff(min_periods, window, 2), o)),                              // #C01,C05,C06,C08 value_and_mask
 //@closure 1 name=CloVvar trait="RollingFn<T, U>" params="v_rm: Option<T>, v: T" ret="(res: U)" push="Call { rm: v_rm, v: v, out: __r }" caps="mut n: usize, mut sum: f64, mut sum2: f64, min_periods: usize"
 //@closure 1 extra
     open spec fn hist(&self) -> Seq<Call<T, U>> { self.h@ }
@@ -435,7 +448,7 @@ pub open spec fn sum_spec(w: Seq<Option<real>>, mp: int, o: U) -> bool {
     }
 //@end
 
-//@fn name=ts_vstd_to crate=tea-rolling ctx="pub trait RollingValidFeature" props=C01,C05,C06,C08 arith=C05
+//@fn name=ts_vstd_to crate=tea-rolling ctx="pub trait RollingValidFeature" props=C01,C05,C06,C07,C08 arith=C05
 //@types T::Inner=${TI}
 //@sig fn ts_vstd_to<V: RollingDrivers<T>, O: Vec1<U>>(this: &V, window: usize, min_periods: Option<usize>, out: Option<&mut O::Buf>) -> (r: Option<O>)
 //@spec
@@ -445,8 +458,8 @@ pub open spec fn sum_spec(w: Seq<Option<real>>, mp: int, o: U) -> bool {
         (window == 0 && out.is_none() && this.view().len() > 0) ==> panic_allowed(),
         this.view().len() <= 0x7fff_ffff,      // A-LEN
     ensures
-        window >= 1 ==> delivered_each(r, match out { Some(o) => Some(final(o).written()), None => None }, this.view().len(),       // #C05 one_output_per_input
-            |i: int, o: U| std_spec(vals(wnd(this.view(), window, i)), mp_eff(min_periods, window, 2), o)),                              // #C01,C05,C06 value_and_mask
+        window >= 1 ==> delivered_each(r, match out { Some(o) => Some(final(o).written()), None => None }, this.view().len(),       // #C05,C07 one_output_per_input
+            |i: int, o: U| std_spec(vals(wnd(this.view(), window, i)), mp_eff(min_periods, window, 2), o)),                              // #C01,C05,C06,C08 value_and_mask
 //@closure 1 name=CloVstd trait="RollingFn<T, U>" params="v_rm: Option<T>, v: T" ret="(res: U)" push="Call { rm: v_rm, v: v, out: __r }" caps="mut n: usize, mut sum: f64, mut sum2: f64, min_periods: usize"
 //@closure 1 extra
     open spec fn hist(&self) -> Seq<Call<T, U>> { self.h@ }
@@ -501,7 +514,7 @@ pub open spec fn sum_spec(w: Seq<Option<real>>, mp: int, o: U) -> bool {
 //@end
 
 
-//@fn name=ts_vskew_to crate=tea-rolling ctx="pub trait RollingValidFeature" props=C01,C05,C06,C08 arith=C05
+//@fn name=ts_vskew_to crate=tea-rolling ctx="pub trait RollingValidFeature" props=C01,C05,C06,C07,C08 arith=C05
 //@types T::Inner=${TI}
 //@sig fn ts_vskew_to<V: RollingDrivers<T>, O: Vec1<U>>(this: &V, window: usize, min_periods: Option<usize>, out: Option<&mut O::Buf>) -> (r: Option<O>)
 //@spec
@@ -511,8 +524,8 @@ pub open spec fn sum_spec(w: Seq<Option<real>>, mp: int, o: U) -> bool {
         (window == 0 && out.is_none() && this.view().len() > 0) ==> panic_allowed(),
         this.view().len() <= 0x7fff_ffff,      // A-LEN
     ensures
-        window >= 1 ==> delivered_each(r, match out { Some(o) => Some(final(o).written()), None => None }, this.view().len(),       // #C05 one_output_per_input
-            |i: int, o: U| skew_spec(vals(wnd(this.view(), window, i)), mp_eff(min_periods, window, 3), o)),                              // #C01,C05,C06 value_and_mask
+        window >= 1 ==> delivered_each(r, match out { Some(o) => Some(final(o).written()), None => None }, this.view().len(),       // #C05,C07 one_output_per_input
+            |i: int, o: U| skew_spec(vals(wnd(this.view(), window, i)), mp_eff(min_periods, window, 3), o)),                              // #C01,C05,C06,C08 value_and_mask
 //@closure 1 name=CloVskew trait="RollingFn<T, U>" params="v_rm: Option<T>, v: T" ret="(res: U)" push="Call { rm: v_rm, v: v, out: __r }" caps="mut n: usize, mut sum: f64, mut sum2: f64, mut sum3: f64, min_periods: usize"
 //@closure 1 extra
     open spec fn hist(&self) -> Seq<Call<T, U>> { self.h@ }
@@ -578,7 +591,7 @@ pub open spec fn sum_spec(w: Seq<Option<real>>, mp: int, o: U) -> bool {
     }
 //@end
 
-//@fn name=ts_vkurt_to crate=tea-rolling ctx="pub trait RollingValidFeature" props=C01,C05,C06,C08 arith=C05
+//@fn name=ts_vkurt_to crate=tea-rolling ctx="pub trait RollingValidFeature" props=C01,C05,C06,C07,C08 arith=C05
 //@types T::Inner=${TI}
 //@sig fn ts_vkurt_to<V: RollingDrivers<T>, O: Vec1<U>>(this: &V, window: usize, min_periods: Option<usize>, out: Option<&mut O::Buf>) -> (r: Option<O>)
 //@spec
@@ -588,8 +601,8 @@ pub open spec fn sum_spec(w: Seq<Option<real>>, mp: int, o: U) -> bool {
         (window == 0 && out.is_none() && this.view().len() > 0) ==> panic_allowed(),
         this.view().len() <= 0x7fff_ffff,      // A-LEN
     ensures
-        window >= 1 ==> delivered_each(r, match out { Some(o) => Some(final(o).written()), None => None }, this.view().len(),       // #C05 one_output_per_input
-            |i: int, o: U| kurt_spec(vals(wnd(this.view(), window, i)), mp_eff(min_periods, window, 4), o)),                              // #C01,C05,C06 value_and_mask
+        window >= 1 ==> delivered_each(r, match out { Some(o) => Some(final(o).written()), None => None }, this.view().len(),       // #C05,C07 one_output_per_input
+            |i: int, o: U| kurt_spec(vals(wnd(this.view(), window, i)), mp_eff(min_periods, window, 4), o)),                              // #C01,C05,C06,C08 value_and_mask
 //@closure 1 name=CloVkurt trait="RollingFn<T, U>" params="v_rm: Option<T>, v: T" ret="(res: U)" push="Call { rm: v_rm, v: v, out: __r }" caps="mut n: usize, mut sum: f64, mut sum2: f64, mut sum3: f64, mut sum4: f64, min_periods: usize"
 //@closure 1 extra
     open spec fn hist(&self) -> Seq<Call<T, U>> { self.h@ }
@@ -648,7 +661,7 @@ pub open spec fn sum_spec(w: Seq<Option<real>>, mp: int, o: U) -> bool {
 //@end
 
 
-//@fn name=ts_vwma_to crate=tea-rolling ctx="pub trait RollingValidFeature" props=C01,C05,C06,C08 arith=C05
+//@fn name=ts_vwma_to crate=tea-rolling ctx="pub trait RollingValidFeature" props=C01,C05,C06,C07,C08 arith=C05
 //@types T::Inner=${TI}
 //@sig fn ts_vwma_to<V: RollingDrivers<T>, O: Vec1<U>>(this: &V, window: usize, min_periods: Option<usize>, out: Option<&mut O::Buf>) -> (r: Option<O>)
 //@spec
@@ -658,8 +671,8 @@ pub open spec fn sum_spec(w: Seq<Option<real>>, mp: int, o: U) -> bool {
         (window == 0 && out.is_none() && this.view().len() > 0) ==> panic_allowed(),
         this.view().len() <= 0x7fff_ffff,      // A-LEN
     ensures
-        window >= 1 ==> delivered_each(r, match out { Some(o) => Some(final(o).written()), None => None }, this.view().len(),       // #C05 one_output_per_input
-            |i: int, o: U| wma_spec(vals(wnd(this.view(), window, i)), mp_eff(min_periods, window, 0), o)),                              // #C01,C05,C06 value_and_mask
+        window >= 1 ==> delivered_each(r, match out { Some(o) => Some(final(o).written()), None => None }, this.view().len(),       // #C05,C07 one_output_per_input
+            |i: int, o: U| wma_spec(vals(wnd(this.view(), window, i)), mp_eff(min_periods, window, 0), o)),                              // #C01,C05,C06,C08 value_and_mask
 //@closure 1 name=CloVwma trait="RollingFn<T, U>" params="v_rm: Option<T>, v: T" ret="(res: U)" push="Call { rm: v_rm, v: v, out: __r }" caps="mut sum: f64, mut sum_xt: f64, mut n: usize, min_periods: usize"
 //@closure 1 extra
     open spec fn hist(&self) -> Seq<Call<T, U>> { self.h@ }
@@ -713,7 +726,7 @@ pub open spec fn sum_spec(w: Seq<Option<real>>, mp: int, o: U) -> bool {
     }
 //@end
 
-//@fn name=ts_vewm_to crate=tea-rolling ctx="pub trait RollingValidFeature" props=C01,C05,C06,C08 arith=C05
+//@fn name=ts_vewm_to crate=tea-rolling ctx="pub trait RollingValidFeature" props=C01,C05,C06,C07,C08 arith=C05
 //@types T::Inner=${TI}
 //@sig fn ts_vewm_to<V: RollingDrivers<T>, O: Vec1<U>>(this: &V, window: usize, min_periods: Option<usize>, out: Option<&mut O::Buf>) -> (r: Option<O>)
 //@spec
@@ -723,8 +736,8 @@ pub open spec fn sum_spec(w: Seq<Option<real>>, mp: int, o: U) -> bool {
         window >= 1,                            // alpha = 2 / window
         this.view().len() <= 0x7fff_ffff,      // A-LEN: the valid count is passed to powi as i32
     ensures
-        window >= 1 ==> delivered_each(r, match out { Some(o) => Some(final(o).written()), None => None }, this.view().len(),       // #C05 one_output_per_input
-            |i: int, o: U| ewm_spec(vals(wnd(this.view(), window, i)), mp_eff(min_periods, window, 0), 1real - 2real / (window as real), o)),   // #C01,C05,C06 value_and_mask
+        window >= 1 ==> delivered_each(r, match out { Some(o) => Some(final(o).written()), None => None }, this.view().len(),       // #C05,C07 one_output_per_input
+            |i: int, o: U| ewm_spec(vals(wnd(this.view(), window, i)), mp_eff(min_periods, window, 0), 1real - 2real / (window as real), o)),   // #C01,C05,C06,C08 value_and_mask
 //@closure 1 name=CloVewm trait="RollingFn<T, U>" params="v_rm: Option<T>, v: T" ret="(res: U)" push="Call { rm: v_rm, v: v, out: __r }" caps="mut q_x: f64, alpha: f64, oma: f64, mut n: usize, min_periods: usize"
 //@closure 1 extra
     open spec fn hist(&self) -> Seq<Call<T, U>> { self.h@ }
